@@ -33,7 +33,7 @@ DEVS = [("CapSingle", "RotTransformUnsorted")]
 def cfg(tier):
     q = tier != "thorough"
     return ["SPECIFICATION Spec", "CONSTANTS", f" Fams <- {'FamQ' if q else 'FamAll'}", f" NModes <- {'NM' if q else 'NMT'}", " Powers <- Pw",
-            " Spectra <- SpAll", " Dtypes <- DBoth", " BlockSizes <- Blocks", "INVARIANT C11_ClauseTable", "INVARIANT C11_SimpleStructureRecovered",
+            " Spectra <- SpAll", " Dtypes <- DBoth", " BlockSizes <- Blocks", " Gaps <- GapsAll", "INVARIANT C11_ClauseTable", "INVARIANT C11_GapsImmaterial", "INVARIANT C11_SimpleStructureRecovered",
             "INVARIANT Emit", "CHECK_DEADLOCK FALSE"]
 
 
@@ -106,6 +106,13 @@ def evaluate(i, scn):
         simple_structure(ck, c, pred)
         return dict(found=ck.found, P=ck.P, D=ck.D, M=ck.M, count={"simpleStructure": 1})
     X, Y = make_data(c, common.seed() + i % 5)
+    if c.get("gaps") == "gaps":
+        # entirely missing samples (the same in both fields) and an entirely missing feature of X
+        X = X.copy()
+        Y = Y.copy()
+        X[{"time": [3, 17]}] = np.nan
+        Y[{"time": [3, 17]}] = np.nan
+        X[{"x": 4}] = np.nan
     fam, nm, power = c["fam"], c["nmodes"], c["power"]
     S, C = xe.single, xe.cross
     cross = fam in ("MCA", "CPCCA", "ComplexMCA", "ComplexCPCCA", "HilbertMCA")
@@ -128,7 +135,7 @@ def evaluate(i, scn):
                 return dict(found=[], count={"not_converged": 1})
             raise
     cl = set(pred["clauses"])
-    tag = f"{fam} n_modes={nm} power={power} {c['spectrum']}"
+    tag = f"{fam} n_modes={nm} power={power} {c['spectrum']}" + (" (missing samples and a missing feature)" if c.get("gaps") == "gaps" else "")
     if not cross:
         ev = np.asarray(rot.explained_variance().values)
         ck.m(all(ev[j] >= ev[j + 1] * (1 - 1e-12) for j in range(len(ev) - 1)), "C11", "C11_Descending", f"{tag}: rotated explained variances not descending: {ev.tolist()}")
@@ -138,12 +145,14 @@ def evaluate(i, scn):
         why = same(rec_r, rec_u, rtol=1e-7, what="reconstruction")
         ck.m(why is None, "C11", "C11_ReconstructionUnchanged", f"{tag}: reconstruction from the rotated scores differs from that of the first {nm} unrotated modes: {why}")
         Cc = np.asarray(rot.components().transpose("x", "mode").values)
+        Cc = Cc[~np.isnan(Cc).any(axis=1)]
         if "sign" in cl:
             ck.m(all(Cc[:, j][np.argmax(np.abs(Cc[:, j]))] > 0 for j in range(nm)), "C11", "C11_SignConvention", f"{tag}: a rotated mode has a negative largest-magnitude loading")
         R = np.asarray(rot.data["rotation_matrix"].values)
         if "unitary" in cl:
             ck.m(np.abs(R.conj().T @ R - np.eye(nm)).max() <= 1e-8, "C11", "C11_VarimaxUnitary", f"{tag}: rotation matrix is not unitary (max dev {np.abs(R.conj().T @ R - np.eye(nm)).max():.2e})")
             sn = np.asarray(rot.scores(normalized=True).transpose("time", "mode").values)
+            sn = sn[~np.isnan(sn).any(axis=1)]
             G = sn.conj().T @ sn
             ck.m(np.abs(G - np.eye(nm)).max() <= 1e-7, "C11", "C11_VarimaxUnitary", f"{tag}: rotated normalised scores are not orthonormal")
         if "varianceConserved" in cl:
@@ -151,6 +160,7 @@ def evaluate(i, scn):
             ck.m(abs(ev.sum() - ev0.sum()) <= 1e-8 * ev0.sum(), "C11", "C11_VarianceConserved", f"{tag}: summed explained variance {ev.sum()} != {ev0.sum()} before rotation")
         if "varimaxNotLower" in cl:
             L0 = np.asarray((m.components() * np.sqrt(m.explained_variance())).sel(mode=slice(1, nm)).transpose("x", "mode").values)
+            L0 = L0[~np.isnan(L0).any(axis=1)]
             L1 = Cc * np.sqrt(ev)
             ck.m(varimax_criterion(L1) >= varimax_criterion(L0) - 1e-9, "C11", "C11_VarimaxNotLower", f"{tag}: Varimax criterion {varimax_criterion(L1)} is lower than before rotation {varimax_criterion(L0)}")
     else:
